@@ -120,6 +120,12 @@ CHECKS = {
   text="~14400 descriptor sets: (a) every j5s program family of C02 / C04 / C16 compiled in memory, listed in the image with all packages and with each single package; (b) raw sets: 31 proto field types x 4 labels x ~90 annotations, the 50 structures of C18 (message options, entity markers, any-membership, enum shapes and info fields, oneofs, recursion, flatten chains, one message carrying every rule / list-rule kind the reflection can produce); (c) package layouts: prefix-related package names (shop.v1 / shop.v10), sub-packages of listed and of indirect packages, cross-package object / enum / oneof references, 10 single reference edges and all together x all 15 ordered package listings. Oracle: import succeeds, no unresolved reference, every exported schema present and equal on re-export (two rounds), nothing invented.",
   note="descriptor sets the reflection rejects are counted as a class (C18 decides whether it may); a field-coverage probe (C15_FIELDCOV) lists the schema fields no generated set populates: only fields the reflection cannot produce remain (inline object/oneof/enum, ext, object rules, oneof rules, tenant_key, multiple_of, EntityJoin)",
   design="3/C15"),
+ "C14": dict(
+  engine="E1+E3",
+  technique=TECH_E1 + "; E3: stateless deviation-bounded exploration of every iteration order the compile / print code consumes: tools/vinstr (go/types) rewrites each range over a Go map, protoreflect Message / Map Range, RangeFiles, RangeExtensions and maps.Keys / Values call in the 14 compile / print packages (overlay build, /repo untouched) so that the explorer picks the order at each dynamic choice point; every execution runs the real compiler and printer to completion and is compared byte for byte with the canonical run",
+  text="5 rich multi-file / multi-package bundles + ~200 multi-file programs of the reference / service / shape families: (1) every permutation of the file listing x of the package listing returned by the file source (~5300 runs); (2) every sequence of <= 3 CompilePackage calls with repetition on one PackageSet, each call's output compared (~6800); (3) every ordered pair 'compile bundle X, then Y' in one process (~1300); (4) E3: all alternatives (all n! orders for n <= 4, else reversal / rotations / adjacent transpositions) at each of the ~115 dynamic choice points with <= 1 deviating point (quick) / <= 2 (thorough), replay divergence is a hard error; (5) reported: 3 fresh processes. Observed: deterministic-marshal bytes of every FileDescriptorProto, printed text of every file, and the sequence of files CompilePackage returns.",
+  note="iteration inside protocompile / protobuf-go not visible at their API is not owned; choice points that only run while process-wide caches fill are covered by the fresh-process family only",
+  design="3/C14"),
 }
 
 PENDING = {
